@@ -429,37 +429,107 @@ def is_next_switch(body, cond):
     return False
 
 
+def _decision_key(body, bb):
+    """Identity of the boolean a switch tests, when it is a value computed once per invocation (its defining
+    block is outside every loop): the single tracer origin of the discriminant."""
+    t = body.blocks[bb].term
+    if t.get("discr_ty") != "bool":
+        return None
+    origins = tracer(body).operand(t["discr"])
+    if len(origins) != 1:
+        return None
+    o = next(iter(origins))
+    if o.kind == "call" and not o.path and not body.loops_containing(o.data):
+        return ("call", o.data)
+    if o.kind == "stmt" and not o.path and not body.loops_containing(o.data[0]):
+        rv = body.blocks[o.data[0]].stmts[o.data[1]]["rvalue"]
+        if rv["rv"] == "un" and rv["op"] == "Not":
+            return None
+        return ("stmt",) + tuple(o.data)
+    return None
+
+
 def required_outcomes(facts, body, target_bb, include_debug=False, skip_try=True):
-    """For every switch block that constrains reaching `target_bb`: (switch_bb, cond, set(outcomes))
-    where outcomes are the only outcomes of that switch through which target_bb is reachable."""
-    res = []
+    """For every switch that constrains reaching `target_bb`: (switch_bb, cond, set(outcomes)): every feasible path from
+    the entry to target_bb leaves that switch through one of `outcomes`. Feasibility treats switches that test the same
+    once-computed boolean consistently (correlated branches), so `if flag {..}` ... `if flag {..}` does not create
+    spurious paths."""
+    import itertools
+    switches = []
+    groups = {}
     for b in body.blocks:
-        if b.cleanup or b.idx not in body.reach or b.term["t"] != "switch" or b.idx == target_bb:
+        if b.cleanup or b.idx not in body.reach or b.term["t"] != "switch" or b.idx == target_bb or len(body.succ[b.idx]) < 2:
             continue
-        if not body.dominates(b.idx, target_bb):
+        switches.append(b.idx)
+        k = _decision_key(body, b.idx)
+        if k is not None:
+            groups.setdefault(k, []).append(b.idx)
+    groups = {k: v for k, v in groups.items() if len(v) >= 2}
+    gkeys = sorted(groups, key=str)[:4]
+    conds = {}
+
+    def cond_of(sbb):
+        if sbb not in conds:
+            conds[sbb] = switch_cond(body, sbb)
+        return conds[sbb]
+
+    removed_for = []
+    for values in itertools.product((True, False), repeat=len(gkeys)):
+        removed = []
+        for k, v in zip(gkeys, values):
+            for sbb in groups[k]:
+                c = cond_of(sbb)
+                for (t, lab) in body.succ[sbb]:
+                    if edge_outcome(facts, body, sbb, lab, c) is not v:
+                        removed.append((sbb, t, lab))
+        if body.reachable_avoiding(target_bb, removed):
+            removed_for.append((values, removed))
+    if not removed_for:
+        removed_for = [((), [])]
+    grouped = {sbb for k in gkeys for sbb in groups[k]}
+    res = []
+
+    def keep(sbb, cond):
+        if not include_debug and (is_debug_only(body.blocks[sbb].term) or cond.get("debug_only")):
+            return False
+        if skip_try and is_try_switch(body, cond):
+            return False
+        return True
+
+    for sbb in switches:
+        if sbb in grouped:
             continue
-        edges = body.succ[b.idx]
-        if len(edges) < 2:
+        edges = body.succ[sbb]
+        all_edges = [(sbb, t, lab) for (t, lab) in edges]
+        # a feasible path that bypasses the switch altogether?
+        if any(body.reachable_avoiding(target_bb, rem + all_edges) for (_, rem) in removed_for):
             continue
         allowed = []
         for (t, lab) in edges:
-            others = [(b.idx, t2, l2) for (t2, l2) in edges if (t2, l2) != (t, lab)]
-            if body.reachable_avoiding(target_bb, others):
+            others = [e for e in all_edges if e != (sbb, t, lab)]
+            if any(body.reachable_avoiding(target_bb, rem + others) for (_, rem) in removed_for):
                 allowed.append(lab)
         if len(allowed) < len(edges):
-            cond = switch_cond(body, b.idx)
-            if not include_debug and (is_debug_only(b.term) or cond.get("debug_only")):
-                continue
-            if skip_try and is_try_switch(body, cond):
+            cond = cond_of(sbb)
+            if not keep(sbb, cond):
                 continue
             outs = set()
             for lab in allowed:
-                o = edge_outcome(facts, body, b.idx, lab, cond)
+                o = edge_outcome(facts, body, sbb, lab, cond)
                 if isinstance(o, tuple):
                     outs |= set(o)
                 else:
                     outs.add(o)
-            res.append((b.idx, cond, outs))
+            res.append((sbb, cond, outs))
+    for i, k in enumerate(gkeys):
+        vals = {values[i] for (values, _) in removed_for if values}
+        if len(vals) == 1:
+            sbb = groups[k][0]
+            # only report when the group actually lies on the way (some member can reach the target)
+            cond = cond_of(sbb)
+            if keep(sbb, cond) and any(body.reachable_avoiding(target_bb, (), start=m) for m in groups[k]):
+                res.append((sbb, cond, {next(iter(vals))}))
+    res.sort(key=lambda x: x[0])
     return res
 
 
